@@ -120,6 +120,13 @@ def gen_case(rng, tier, index):
         v = v[a:b]
     case["prefix"] = prefix
     case["ops"] = [_inner_axis(ops.gen_op(rng, T, v, cfg, families=FAMS)) for _ in range(rng.choice([1, 2, 3, 4]))]
+    if not path and rng.random() < 0.25:
+        # the slices that stay lazy on a VirtualArray at the root: one range (any step sign), one field
+        m = len(v)
+        bound = lambda: rng.choice([None, None, rng.randint(-m - 2, m + 2)])     # noqa: E731
+        step = rng.choice([None, 1, 2, 3, -1, -1, -2, -3, m + 1, -(m + 1)])
+        case["ops"].insert(rng.randint(0, len(case["ops"])),
+                           {"op": "getitem", "items": [{"t": "range", "start": bound(), "stop": bound(), "step": step}]})
     return case
 
 
@@ -177,6 +184,14 @@ def _same_outcome(ctx, case, what, op, e, l, w):
         # the materialised array's own result is an invalid layout (C11's business): nothing to compare with
         ctx.count("eager_result_unreadable_(not_compared)")
         return True
+    if l.kind == "value" and l.lazy_len is not None:
+        ctx.count("lazy_results_with_announced_length")
+        if l.lazy_len[0] != l.lazy_len[1]:
+            # a result that is still lazy announces a length (len(), iteration and integer indexing rely on it)
+            ctx.violation("lazy-length-differs", {"op": ops_slim(op), "when": what, "announced": l.lazy_len[0],
+                                                  "materialised": l.lazy_len[1], "policy": case["policy"],
+                                                  "declared": [case["declare_form"], case["declare_length"]]})
+            return False
     if e.kind != l.kind:
         ctx.violation("lazy-outcome-differs", {"op": ops_slim(op), "when": what, "eager": e.brief(), "lazy": l.brief(),
                                                "policy": case["policy"], "path": case["path"],
